@@ -117,7 +117,7 @@ func c11RelRefsSuite(r *Result, rng *rand.Rand, tier string) {
 	}
 	var ops [][]interface{}
 	var pend []pending
-	for _, fn := range []string{"S", "U", "C", "R"} {
+	for _, fn := range []string{"S", "U", "C", "R", "E"} {
 		f := c11Families[fn]
 		for _, t := range f.Tables {
 			if t.Model == nil {
@@ -313,7 +313,7 @@ func c11QCondsSuite(r *Result, rng *rand.Rand, tier string) {
 	if tier == "thorough" {
 		worlds = 3000
 	}
-	fams := []string{"R", "S", "C", "R", "U"}
+	fams := []string{"R", "S", "C", "R", "U", "E"}
 	shapes := []string{"one", "structs", "ptrs", "dupptrs", "dupvals"}
 	type pending struct {
 		suite string
